@@ -270,7 +270,7 @@ pub fn equality(seed: u64, n: usize, out: &str) {
                 day += 1;
             }
         }
-        let variant = r.below(7);
+        let variant = r.below(9);
         let mut hols2 = hols.clone();
         let (a, b, what): (Obj, Obj, &str) = match variant {
             // identical behaviour, different structure
@@ -303,6 +303,19 @@ pub fn equality(seed: u64, n: usize, out: &str) {
                 // member order and duplication do not matter
                 let other = get_calendar_by_name("ldn").unwrap();
                 (Obj::U(UnionCal::new(vec![base.clone(), other.clone()], None)), Obj::U(UnionCal::new(vec![other.clone(), base.clone(), other], None)), "order-dup")
+            }
+            7 => {
+                // plain calendar on the LEFT of a union: a holiday listed on a weekend changes no business day
+                let mut d = r.range(100, 84000);
+                while dn(d).weekday().num_days_from_monday() != 6 {
+                    d += 1;
+                }
+                hols2.push(dn(d));
+                (Obj::C(Cal::new(hols2, mask.clone())), Obj::U(UnionCal::new(vec![base.clone()], None)), "cal-vs-union-weekend-holiday")
+            }
+            8 => {
+                // identical holiday lists, different working weeks
+                (Obj::C(Cal::new(hols.clone(), vec![5, 6])), Obj::U(UnionCal::new(vec![Cal::new(hols.clone(), vec![])], None)), "cal-vs-union-week-mask")
             }
             _ => {
                 // settlement present vs absent: differs exactly where the settlement calendar is closed
